@@ -222,6 +222,18 @@ func runEVM(seed uint64, n int, outDir string, replay string) {
 				evValueTree(o, rc, ans)
 			}
 		}()
+		if c%4 == 3 {
+			// an extra sub-case with its own generator, so that the cases above stay what they were
+			func() {
+				defer func() {
+					if p := recover(); p != nil {
+						o.Violate("evm-panic", fmt.Sprintf("panic: %v", p))
+						o.Pad("panic %v", p)
+					}
+				}()
+				evWrapped(o, h.NewRng(seed*1000003+uint64(c)), ans)
+			}()
+		}
 		o.EndCase(fmt.Sprint(rc.U64()), true)
 	}
 	o.Close(nil)
